@@ -329,6 +329,23 @@ def cases(draw: Any, tier: str) -> dict:
         case["files"] = []
         case["sets"] = [{"path": ["component", "type"], "value": "mod:Root"}] + (
             [{"path": ["component", "port"], "value": d.int(1, 9)}] if d.bool() else [])
+    if not case["sets"] and not case["subprocess"] and len(names) >= 2 and case["files"] and d.pct(30):
+        # YAML anchors: two services of the first file share one component mapping (`&id001` / `*id001`), and a later file
+        # overrides a nested key for one of them only.  (Not combined with --set: what an in-place override does to an
+        # aliased node is YAML's business, not this property's.)
+        svcs = case["files"][0].get("services")
+        if isinstance(svcs, dict) and len(svcs) >= 2:
+            a, b = list(svcs)[:2]
+            comp = copy.deepcopy(svcs[a].get("component") or {"type": "mod:Root"})
+            comp["opts"] = {"k1": d.int(0, 3), "port": {"k2": "shared"}}
+            svcs[a]["component"] = comp
+            svcs[b]["component"] = copy.deepcopy(comp)
+            over = {"services": {d.pick([a, b]): {"component": {"opts": {"k1": 9, "port": {"k2": "mine"}}}}}}
+            if len(case["files"]) >= 2:
+                case["files"][-1] = ref_merge(case["files"][-1], over)
+            else:
+                case["files"].append(over)
+            case["anchors"] = True
     pool = names + ["nosuch"] if names else ["default", "nosuch"]
     case["flag"] = d.pick(pool) if d.pct(35) else None
     case["env"] = d.pick(pool) if d.pct(30) else None
@@ -372,14 +389,20 @@ def exhaustive_cases(prop: str, tier: str, w: int, n: int):
 # =====================================================================================
 
 
-def _render(v: Any, base: str) -> Any:
+def _render(v: Any, base: str, memo: dict | None = None) -> Any:
+    """memo: equal non-empty mappings become ONE object, which yaml.dump writes as an anchor and aliases."""
     if isinstance(v, dict):
         if set(v) == {"$tag"}:
             kind, name = v["$tag"]
             return Tagged(kind, name if kind == "Env" else os.path.join(base, name))
-        return {k: _render(x, base) for k, x in v.items()}
+        if memo is not None and v:
+            key = json.dumps(v, sort_keys=True, default=repr)
+            if key not in memo:
+                memo[key] = {k: _render(x, base, memo) for k, x in v.items()}
+            return memo[key]
+        return {k: _render(x, base, memo) for k, x in v.items()}
     if isinstance(v, list):
-        return [_render(x, base) for x in v]
+        return [_render(x, base, memo) for x in v]
     return v
 
 
@@ -407,7 +430,7 @@ def run_case(case: dict, prop: str) -> Outcome:
     for i, f in enumerate(case["files"]):
         p = os.path.join(base, f"conf {i}.yaml")
         with open(p, "w") as fh:
-            yaml.dump(_render(f, base), fh, Dumper=_Dumper, default_flow_style=False)
+            yaml.dump(_render(f, base, {} if case.get("anchors") else None), fh, Dumper=_Dumper, default_flow_style=False)
         paths.append(p)
     args = ["run"] + paths
     for k, s in enumerate(case["sets"]):
@@ -490,6 +513,8 @@ def run_case(case: dict, prop: str) -> Outcome:
     svc_over_top = _service_overrides_nested_top(case)
     if svc_over_top:
         labs.add("service-overrides-nested-top-level")
+    if case.get("anchors"):
+        labs.add("yaml-anchors")
     out.labels = sorted(labs)
     out.nontrivial = bool((len(case["files"]) >= 2 and nested_both) or "escaped-dot" in labs or (case["flag"] and case["env"]) or svc_over_top)
     out.trace = {"args": [a if not a.startswith(base) else os.path.basename(a) for a in args], "expected": repr(exp)[:600],
